@@ -26,7 +26,8 @@ EXPLANATION = (
     "R2 in CircuitTemplate._add_input every edge record targets `<t>/<op>/<var>` with t an element of the get_nodes result for the "
     "(op, var) of the addressed path, its source is the output variable of the freshly created input node, and a `source_idx` is the "
     "enumerate counter of that same node list, used only under a guard that compares the input's column count with the length of "
-    "that list.  R3 time grid: in create_input_node the adaptive branch builds linspace(0, T, inp.shape[0]) (T, inp = unmodified "
+    "that list; the node list reaches the enumerate in the order get_nodes resolved it (copies are fine; sorted / set / reversed / "
+    "unique / dict.fromkeys / [::-1] between look-up and wiring are reported).  R3 time grid: in create_input_node the adaptive branch builds linspace(0, T, inp.shape[0]) (T, inp = unmodified "
     "parameters, end point included), the emitted equation is `<lhs> = interp|interp_rows(t, <grid var>, <array var>)` with the grid "
     "variable declared with that linspace and the array variable declared with the array as value (interp_rows exactly on the 2-D "
     "branch; names held in locals are inlined), the fixed-step branch emits `<lhs> = index(<array var>, t)`, and the returned names are those of the node/operator/output variable built; _add_input "
@@ -232,27 +233,86 @@ def _implied_atoms(ctx, f, test: ast.AST, positive: bool, depth: int = 4):
     return []
 
 
+_ORDER_KEEPING = {"list", "tuple"}
+_ORDER_CHANGING = {"sorted": "sorts it", "set": "turns it into a set (arbitrary order, duplicates dropped)",
+                   "frozenset": "turns it into a set (arbitrary order, duplicates dropped)", "reversed": "reverses it",
+                   "unique": "sorts it and drops duplicates", "fromkeys": "drops duplicates", "shuffle": "shuffles it",
+                   "permutation": "shuffles it"}
+
+
+def _peel_node_list(e: ast.AST):
+    """(innermost expression, [(wrapper name, effect)...]) after removing order-keeping wrappers (list, tuple) and recording
+    order-changing / duplicate-dropping ones (sorted, set, reversed, unique, dict.fromkeys, [::-1]); an unknown wrapper stops."""
+    changes = []
+    while True:
+        if isinstance(e, ast.Call) and len(e.args) >= 1 and not isinstance(e.args[0], ast.Starred):
+            nm = call_name(e)
+            if nm in _ORDER_KEEPING and isinstance(e.func, ast.Name) and len(e.args) == 1 and not e.keywords:
+                e = e.args[0]
+                continue
+            if nm in _ORDER_CHANGING:
+                changes.append((nm, _ORDER_CHANGING[nm]))
+                e = e.args[0]
+                continue
+        if isinstance(e, ast.Subscript) and isinstance(e.slice, ast.Slice) and e.slice.lower is None and e.slice.upper is None:
+            st = e.slice.step
+            if st is None:
+                e = e.value
+                continue
+            if isinstance(st, ast.UnaryOp) and isinstance(st.op, ast.USub) and isinstance(st.operand, ast.Constant) and st.operand.value == 1:
+                changes.append(("[::-1]", "reverses it"))
+                e = e.value
+                continue
+        return e, changes
+
+
+def _node_lookup(ctx, f, rid):
+    """The statement `<nodes> = <get_nodes(...) possibly wrapped>` of _add_input: (statement, the get_nodes call, wrappers that
+    change the order / drop duplicates).  AnalysisError when the look-up is wrapped in something that cannot be classified."""
+    cands = [st for st in walk_shallow(f.node) if isinstance(st, ast.Assign) and len(st.targets) == 1 and isinstance(st.targets[0], ast.Name)
+             and any(isinstance(c, ast.Call) and call_name(c) == "get_nodes" for c in ast.walk(st.value))]
+    ctx.require(len(cands) == 1, f"{rid}: expected one `<nodes> = self.get_nodes(...)` in _add_input, found {len(cands)}")
+    st = cands[0]
+    inner, changes = _peel_node_list(st.value)
+    if not (isinstance(inner, ast.Call) and call_name(inner) == "get_nodes"):
+        raise AnalysisError(f"{rid}: the node look-up `{norm(st)}` is wrapped in an operation that cannot be classified as order-keeping "
+                            f"or order-changing (unrecognised form)")
+    return st, inner, changes
+
+
 # --------------------------------------------------------------------------------------------
 # R2 — column i goes to target node i
 # --------------------------------------------------------------------------------------------
 
 def r2_column_to_node(ctx, rid):
     f = ctx.repo.get_func(REL, f"{CLS}._add_input")
-    gn_assigns = [st for st in walk_shallow(f.node) if isinstance(st, ast.Assign) and isinstance(st.value, ast.Call)
-                  and call_name(st.value) == "get_nodes" and len(st.targets) == 1 and isinstance(st.targets[0], ast.Name)]
-    ctx.require(len(gn_assigns) == 1, f"{rid}: expected one `<nodes> = self.get_nodes(...)` in _add_input, found {len(gn_assigns)}")
-    tn_assign = gn_assigns[0]
-    gn = tn_assign.value
+    tn_assign, gn, reordered = _node_lookup(ctx, f, rid)
     vid = {k.arg: k.value for k in gn.keywords}.get("var_identifier") or (gn.args[1] if len(gn.args) > 1 else None)
     ctx.require(isinstance(vid, ast.Tuple) and len(vid.elts) == 2, f"{rid}: `{norm(gn)}` has no (op, var) var_identifier (unrecognised form)")
     inp_param = f.params[2] if len(f.params) > 2 else None
     ctx.require(inp_param is not None, f"{rid}: _add_input lost its array parameter")
 
-    def is_target_list(e) -> bool:
-        if not isinstance(e, ast.Name):
+    reorders = [(tn_assign, nm, eff_) for nm, eff_ in reordered]       # (where, wrapper, what it does to the node list)
+
+    def is_target_list(e, depth=4, note=True) -> bool:
+        """e is the list the look-up produced: the local itself, a copy (list/tuple/[:]) or a local re-bound to one; wrappers that
+        change the order or drop entries are accepted as 'the list' too but recorded - they are reported as such below."""
+        inner, changes = _peel_node_list(e)
+        if not isinstance(inner, ast.Name) or comp_generator_of(inner) is not None or depth <= 0:
             return False
-        defs = ctx.rd(f).defs_reaching(e)
-        return len(defs) == 1 and defs[0] is tn_assign
+        defs = ctx.rd(f).defs_reaching(inner)
+        if len(defs) != 1:
+            return False
+        if defs[0] is tn_assign:
+            good = True
+        else:
+            v = assigned_value(defs[0], inner.id)
+            good = v is not None and is_target_list(v, depth - 1, note)
+        if good and note:
+            for nm, eff_ in changes:
+                if not any(w is e and n_ == nm for w, n_, _ in reorders):
+                    reorders.append((e, nm, eff_))
+        return good
 
     def weight_dict(e):
         return isinstance(e, ast.Dict) and any(isinstance(k, ast.Constant) and k.value == "weight" for k in e.keys)
@@ -410,6 +470,17 @@ def r2_column_to_node(ctx, rid):
                                        + (f" (the guard compares `{norm(other_len)}`)" if other_len is not None else "")
                                        + ": columns would be attached to a node list of another length", label=f"{tag}: guard")
     ctx.require(n_idx >= 1, f"{rid}: no edge record with a per-column 'source_idx' found in _add_input")
+    # ---- column i belongs to the i-th node in the order get_nodes resolved the path (definition order of the circuit)
+    if reorders:
+        where, nm, eff_ = reorders[0]
+        ctx.violation(rid, f, where if isinstance(where, ast.stmt) else stmt_of(ctx.cfg(f), where),
+                      f"the node list the input columns are distributed over is passed through `{nm}`, which {eff_}: column i of an (N, n) "
+                      f"input is wired to entry i of that list, i.e. no longer to the i-th node in the order the circuit defines them (and "
+                      f"get_nodes resolves the path), so units are driven by each other's input", {"operations": [n_ for _, n_, _ in reorders]},
+                      label="node list keeps the resolution order")
+    else:
+        ctx.ok(rid, f, tn_assign, "the node list the columns are distributed over is the get_nodes result in its own order (at most copied)",
+               label="node list keeps the resolution order")
 
 
 # --------------------------------------------------------------------------------------------
@@ -1044,16 +1115,20 @@ def _emptiness_test(test, is_list):
 def r5_empty_selection_reported(ctx, rid):
     f = ctx.repo.get_func(REL, f"{CLS}._add_input")
     cfg = ctx.cfg(f)
-    gn_assigns = [st for st in cfg.stmts() if isinstance(st, ast.Assign) and isinstance(st.value, ast.Call)
-                  and call_name(st.value) == "get_nodes" and len(st.targets) == 1 and isinstance(st.targets[0], ast.Name)]
-    ctx.require(len(gn_assigns) == 1, f"{rid}: expected one `<nodes> = self.get_nodes(...)` in _add_input")
-    tn = gn_assigns[0]
+    tn, _, _ = _node_lookup(ctx, f, rid)       # wrappers (sorted, set, list, ...) do not change whether the selection is empty
 
-    def is_list(e):
-        if not isinstance(e, ast.Name):
+    def is_list(e, depth=4):
+        """The looked-up node list, a copy / re-ordering of it (same emptiness) or a local bound to one."""
+        e, _ = _peel_node_list(e)
+        if not isinstance(e, ast.Name) or comp_generator_of(e) is not None or depth <= 0:
             return False
         d = ctx.rd(f).defs_reaching(e)
-        return len(d) == 1 and d[0] is tn
+        if len(d) != 1:
+            return False
+        if d[0] is tn:
+            return True
+        v = assigned_value(d[0], e.id)
+        return v is not None and is_list(v, depth - 1)
 
     def reports(block):
         for b in block:
